@@ -54,7 +54,7 @@ func (fr *frame) execCall(instr ssa.Value, c *ssa.CallCommon, st *State, env map
 		keys := invokeKeys(c)
 		for _, k := range keys {
 			if ct := vc.eng.specs.contracts[k]; ct != nil {
-				return fr.applyContract(ct, k, c.Method.Type().(*types.Signature), args, argTypes, st, alive, pos)
+				return fr.applyContract(ct, k, c.Method.Type().(*types.Signature), args, argTypes, st, alive, pos, vc.eng.contractPkg(k, c.Method.Pkg()))
 			}
 		}
 		// statically known dynamic type?
@@ -126,6 +126,11 @@ func (fr *frame) callStatic(fn *ssa.Function, args []Val, argTypes []types.Type,
 	vc := fr.vc
 	key := fnKey(fn)
 	ct := vc.eng.specs.contracts[key]
+	if ik := instKey(fn); ik != "" {
+		if ict := vc.eng.specs.contracts[ik]; ict != nil {
+			ct, key = ict, ik
+		}
+	}
 	if ct == nil {
 		if s := vc.eng.builtinSpec(fr, fn, args, st, alive); s != nil {
 			return *s, alive
@@ -145,7 +150,7 @@ func (fr *frame) callStatic(fn *ssa.Function, args []Val, argTypes []types.Type,
 		}
 	}
 	if ct != nil && (ct.Trusted || !hasBody || vc.contractApplies(ct) || ct.Opaque) {
-		return fr.applyContract(ct, key, fn.Signature, args, argTypes, st, alive, pos)
+		return fr.applyContract(ct, key, fn.Signature, args, argTypes, st, alive, pos, vc.eng.pkgOfFn(fn))
 	}
 	if hasBody {
 		if fr.depth >= vc.maxDepth {
@@ -278,13 +283,13 @@ func lastName(s string) string {
 }
 
 // applyContract models a call by the callee's contract.
-func (fr *frame) applyContract(ct *Contract, key string, sig *types.Signature, args []Val, argTypes []types.Type, st *State, alive, pos string) (Val, string) {
+func (fr *frame) applyContract(ct *Contract, key string, sig *types.Signature, args []Val, argTypes []types.Type, st *State, alive, pos string, cpkg *ssa.Package) (Val, string) {
 	vc := fr.vc
 	ct.used = true
 	if ct.Trusted {
 		vc.usedSpecs[key+" ["+ct.Src+"]"] = true
 	}
-	te := vc.newTEnv(st, st.clone(), fr.fn.Pkg)
+	te := vc.newTEnv(st, st.clone(), cpkg)
 	old := te.old
 	// parameter types: receiver first
 	var ptypes []types.Type
@@ -342,7 +347,7 @@ func (fr *frame) applyContract(ct *Contract, key string, sig *types.Signature, a
 		rvals = append(rvals, v)
 	}
 	rv = tupleOf(rvals, res.Len())
-	te2 := vc.newTEnv(st, old, fr.fn.Pkg)
+	te2 := vc.newTEnv(st, old, cpkg)
 	te2.vars = te.vars
 	for i, n := range ct.Results {
 		if i < len(rvals) {
@@ -383,6 +388,7 @@ func (fr *frame) execBuiltin(b *ssa.Builtin, c *ssa.CallCommon, args []Val, st *
 		case *types.Slice:
 			return Val{t: "(slen " + args[0].t + ")"}
 		case *types.Basic:
+			vc.assumeOnce("(<= (str.len " + args[0].t + ") 9223372036854775807)")
 			return Val{t: "(str.len " + args[0].t + ")"}
 		case *types.Array:
 			return Val{t: fmt.Sprint(t.Len())}
@@ -469,6 +475,10 @@ func (fr *frame) execBuiltin(b *ssa.Builtin, c *ssa.CallCommon, args []Val, st *
 		vc.assume("true", fmt.Sprintf("(forall ((j! Int)) (=> (or (< j! (soff %s)) (>= j! (+ (soff %s) %s))) (= (select %s j!) (select %s j!))))", dst.t, dst.t, n, arr, old))
 		vc.logWrite(key, "(sref "+dst.t+")")
 		vc.heapSet(st, key, hs, "(store "+h+" (sref "+dst.t+") "+arr+")")
+		if es == sortInt && !isStringType(c.Args[1].Type()) {
+			// a full copy of a byte slice has the same abstract value
+			vc.assume("true", fmt.Sprintf("(=> (= (slen %s) (slen %s)) (= (bytesval %s (soff %s) (slen %s)) (bytesval (select %s (sref %s)) (soff %s) (slen %s))))", dst.t, src.t, arr, dst.t, dst.t, h, src.t, src.t, src.t))
+		}
 		return Val{t: n}
 	case "delete":
 		mt := types.Unalias(c.Args[0].Type()).Underlying().(*types.Map)
